@@ -1,4 +1,5 @@
 import PlasVerif.Proofs.Render
+import PlasVerif.Proofs.RenderNames
 /-!
 # C13 — Rendering splits the document into files without losing or repeating content
 
@@ -8,21 +9,26 @@ with the filename generator as a parameter `g : Gen σ` (property C15); the pres
 written from the property text: units = elements at or above the split level, each with the body text of its
 region in document order followed by the footnote text of the region.
 
-All theorems quantify over every generator, generator state, split level, filename template and document tree
-(any size, any depth) in the domain `InDomain`: the document node has one `document` element (level
-`DOCUMENT_LEVEL`), the effective split level is below `ENDSECTIONS_LEVEL` (the property ranges over −10..6),
-and footnotes are neither units nor contain units or footnotes.
+All theorems quantify over every generator (any state type `σ`, any type of names `ν`), generator state, split
+level, filename template and document tree (any size, any depth) in the domain `InDomain`: the document node has
+one `document` element (level `DOCUMENT_LEVEL`), the effective split level is below `ENDSECTIONS_LEVEL` (the
+property ranges over −10..6) and no footnote is itself a sectioning unit; footnotes may be nested and may contain
+units (`render_partition_tops` also admits the preamble nodes and whatever follows the `document` element).
+`render_fails_only_with_generator` characterises the hypothesis `render … = .ok files`, and
+`filenames_distinct_and_clean_with_Filenames` instantiates the generator with the C15 model of
+`plasTeX/Filenames.py`, leaving no hypothesis about the generator.
 -/
 namespace PlasVerif.Properties.C13
-open PlasVerif.Model.Render PlasVerif.Spec.Split PlasVerif.Proofs.Render
+open PlasVerif.Model.Render PlasVerif.Spec.Split PlasVerif.Proofs.Render PlasVerif.Proofs.RenderNames PlasVerif.Model.RenderNames
 
-def isDocRoot : Tree → Bool
-  | .text _ => false
-  | .elem a _ => a.level == DOCUMENT_LEVEL
-
-/-- the domain of the property (decidable; the generated inputs are checked against it by the driver) -/
+/-- the domain of the property (decidable; the generated inputs are checked against it by the driver):
+    one `document` element below the document node, an effective split level below `ENDSECTIONS_LEVEL` (the
+    property ranges over −10..6), no footnote that is itself a sectioning unit (footnotes may be nested, and may
+    contain units), and either the `document` element is at or above the split level (always so for split levels
+    ≥ `-sys.maxsize`) or no unit lies inside a footnote. -/
 def InDomain (lvl : Int) (root : Tree) : Bool :=
-  isDocRoot root && decide (lvl < ENDSECTIONS_LEVEL) && wf lvl false root
+  isDocRoot root && decide (lvl < ENDSECTIONS_LEVEL) && wf lvl root &&
+    (decide (DOCUMENT_LEVEL ≤ lvl) || footFree lvl false root)
 
 /-- `t1` … a small document used for the non-vacuity examples: document{ 1 fn{2} chapter{ 3 section{4 fn{5}} } } -/
 def exDoc : Tree :=
@@ -33,7 +39,7 @@ def exDoc : Tree :=
      .elem (at_ 3 0 false) [.text 3, .elem (at_ 4 1 false) [.text 4, .elem (at_ 5 1001 true) [.text 5]]]]
 
 /-- a name supply for the examples -/
-def exGen : Gen Nat := ⟨fun k _ => .ok (["index.html", "sect0001.html", "sect0002.html"].getD k "x", k + 1)⟩
+def exGen : Gen Nat String := ⟨fun k _ => .ok (["index.html", "sect0001.html", "sect0002.html"].getD k "x", k + 1)⟩
 
 def exTemplate : List Char := "index [$id, sect$num(4)]".toList
 
@@ -41,15 +47,15 @@ def exTemplate : List Char := "index [$id, sect$num(4)]".toList
     one per unit at or above the effective split level: the k-th unit in document order gets the k-th name the
     generator issues for the units' requests (in document order), its file opens with that unit's layout and
     its text is the body text of the unit's region in document order followed by the region's footnote text. -/
-theorem render_partition {σ} (g : Gen σ) (s0 : σ) (split : Int) (tmpl : List Char) (root : Tree) (files : List File)
+theorem render_partition {σ ν} (g : Gen σ ν) (s0 : σ) (split : Int) (tmpl : List Char) (root : Tree) (files : List (File ν))
     (hd : InDomain (effLevel split tmpl) root = true)
     (h : render g s0 split tmpl [root] = .ok files) :
     ∃ names s', run g s0 ((units (effLevel split tmpl) root).map fun u => req u.attrs) = .ok (names, s') ∧
       names.length = (units (effLevel split tmpl) root).length ∧
       List.Perm (files.map summary) (List.zipWith expected names (units (effLevel split tmpl) root)) := by
   generalize hE : effLevel split tmpl = lvl at hd ⊢
-  simp only [InDomain, Bool.and_eq_true, decide_eq_true_eq] at hd
-  obtain ⟨⟨hroot, hl⟩, hw⟩ := hd
+  simp only [InDomain, Bool.and_eq_true, Bool.or_eq_true, decide_eq_true_eq] at hd
+  obtain ⟨⟨⟨hroot, hl⟩, hw⟩, hcorner⟩ := hd
   cases root with
   | text m => simp [isDocRoot] at hroot
   | elem a ks =>
@@ -64,25 +70,39 @@ theorem render_partition {σ} (g : Gen σ) (s0 : σ) (split : Int) (tmpl : List 
       obtain ⟨atops, s'⟩ := p
       simp only [ha, Except.ok.injEq] at h
       obtain ⟨he, han, hr⟩ := assignL_spec g lvl _ s0 s' atops ha
-      have hflt : atops.filter ATree.isDocLevel = atops := by
-        cases atops with
-        | nil => simp at he
-        | cons r rest =>
-          cases rest with
-          | cons r2 rest2 => simp at he
-          | nil =>
-            cases r with
-            | text m => simp at he
-            | elem a' f ks' =>
-              simp only [eraseL_cons, erase_elem, eraseL_nil, List.cons.injEq, Tree.elem.injEq, and_true] at he
-              simp [ATree.isDocLevel, he.1, hdoc]
-      rw [hflt] at h
-      have hw' : wfL lvl false (eraseL atops) = true := by simp [he, hw]
-      obtain ⟨_, _, _, i4, i5⟩ := mainL lvl hl atops han hw'
-      subst h
-      simp only [he, unitsL_cons, unitsL_nil, List.append_nil] at i4 i5
-      simp only [unitReqsL, unitsL_cons, unitsL_nil, List.append_nil] at hr
-      exact ⟨fileNamesL atops, s', hr, i4, i5⟩
+      have hw' : wfL lvl (eraseL atops) = true := by simp [he, hw]
+      obtain ⟨_, _, i4, i5⟩ := mainL lvl hl atops han hw'
+      cases atops with
+      | nil => simp at he
+      | cons r rest =>
+        cases rest with
+        | cons r2 rest2 => simp at he
+        | nil =>
+          cases r with
+          | text m => simp at he
+          | elem a' f ks' =>
+            simp only [eraseL_cons, erase_elem, eraseL_nil, List.cons.injEq, Tree.elem.injEq, and_true] at he
+            obtain ⟨rfl, hks⟩ := he
+            have hflt : [ATree.elem a' f ks'].filter ATree.isDocLevel = [ATree.elem a' f ks'] := by
+              simp [ATree.isDocLevel, hdoc]
+            rw [hflt] at h
+            -- nothing is written while the (unowned) footnote text of the root would be printed
+            have hfo : (footOutL [ATree.elem a' f ks']).2 = [] := by
+              rcases hcorner with hlow | hff
+              · have hu : a'.level ≤ lvl := by rw [hdoc]; exact hlow
+                simp only [annL_cons, ann_elem, annL_nil, Bool.and_true, Bool.and_eq_true, beq_iff_eq] at han
+                have hsome : f.isSome = true := by simpa [hu] using han.1
+                have hfoot : a'.foot = false := by
+                  simp only [wf_elem, Bool.and_eq_true] at hw
+                  simpa [isUnit, hu] using hw.1
+                have hlt : a'.level < ENDSECTIONS_LEVEL := lt_ends_of_le hl hu
+                simp [footOut_elem, claims, hsome, hlt, hfoot]
+              · exact (nofilesL lvl false _ han (by simpa [hks] using hff)).1
+            rw [hfo, List.append_nil] at i5
+            subst h
+            simp only [eraseL_cons, erase_elem, eraseL_nil, hks, unitsL_cons, unitsL_nil, List.append_nil] at i4 i5
+            simp only [unitReqsL, unitsL_cons, unitsL_nil, List.append_nil] at hr
+            exact ⟨fileNamesL [ATree.elem a' f ks'], s', hr, i4, i5⟩
 
 /-- non-vacuity: the example document is in the domain at split level 0 and rendering it (names from a fixed
     supply) succeeds with two files -/
@@ -90,9 +110,26 @@ example : InDomain (effLevel 0 exTemplate) exDoc = true := by decide
 example : (render exGen 0 0 exTemplate [exDoc]).map (·.map summary) =
       .ok [("sect0001.html", some (.lop 3), [3, 4, 5]), ("index.html", some (.lop 1), [1, 2])] := by rfl
 
+/-- a document of the widened domain: a footnote nested in a footnote, and a unit inside a footnote:
+    document{ 1 fn₂{ 2 fn₃{3} 4 } fn₆{ 6 chapter₇{7} } chapter₅{5} } -/
+def exDocNested : Tree :=
+  let at_ (tag : Nat) (level : Int) (foot : Bool) : Attrs :=
+    { tag := tag, level := level, foot := foot, id := none, title := some "T", ref := none, name := "n" }
+  .elem (at_ 1 DOCUMENT_LEVEL false)
+    [.text 1, .elem (at_ 2 1001 true) [.text 2, .elem (at_ 3 1001 true) [.text 3], .text 4],
+     .elem (at_ 6 1001 true) [.text 6, .elem (at_ 7 0 false) [.text 7]],
+     .elem (at_ 5 0 false) [.text 5]]
+
+/-- non-vacuity of the widened domain: the nested footnote's text comes before its host's, the unit inside the
+    footnote gets its own file (named in document order) -/
+example : InDomain (effLevel 0 exTemplate) exDocNested = true := by decide
+example : (render exGen 0 0 exTemplate [exDocNested]).map (·.map summary) =
+      .ok [("sect0002.html", some (.lop 5), [5]), ("sect0001.html", some (.lop 7), [7]),
+           ("index.html", some (.lop 1), [1, 3, 2, 4, 6])] := by rfl
+
 /-- **Each sectioning unit at or above the split level is written to its own file**: as many files as units,
     named (up to the order of writing) by the generator's answers to the units' requests in document order. -/
-theorem one_file_per_split_unit {σ} (g : Gen σ) (s0 : σ) (split : Int) (tmpl : List Char) (root : Tree) (files : List File)
+theorem one_file_per_split_unit {σ ν} (g : Gen σ ν) (s0 : σ) (split : Int) (tmpl : List Char) (root : Tree) (files : List (File ν))
     (hd : InDomain (effLevel split tmpl) root = true)
     (h : render g s0 split tmpl [root] = .ok files) :
     files.length = (units (effLevel split tmpl) root).length ∧
@@ -112,7 +149,7 @@ example : (units (effLevel 0 exTemplate) exDoc).length = 2 := by decide
 /-- **Footnote text is gathered at the end of its file, body text comes first in document order**: every file
     written is the file of some unit: it opens with that unit's layout and its text is the body text of the unit's
     region (document order) followed by the footnote text of the region. -/
-theorem footnotes_gathered_at_end {σ} (g : Gen σ) (s0 : σ) (split : Int) (tmpl : List Char) (root : Tree) (files : List File)
+theorem footnotes_gathered_at_end {σ ν} (g : Gen σ ν) (s0 : σ) (split : Int) (tmpl : List Char) (root : Tree) (files : List (File ν))
     (hd : InDomain (effLevel split tmpl) root = true)
     (h : render g s0 split tmpl [root] = .ok files) :
     ∀ f ∈ files, ∃ u ∈ units (effLevel split tmpl) root,
@@ -128,8 +165,8 @@ theorem footnotes_gathered_at_end {σ} (g : Gen σ) (s0 : σ) (split : Int) (tmp
 /-- **Units below the split level are written inside their nearest file-producing ancestor**: a text whose
     nearest enclosing unit (element at or above the split level) has tag `u` is found in a file that opens with
     the layout of `u`. -/
-theorem owner_is_nearest_splitting_ancestor {σ} (g : Gen σ) (s0 : σ) (split : Int) (tmpl : List Char) (root : Tree)
-    (files : List File) (hd : InDomain (effLevel split tmpl) root = true)
+theorem owner_is_nearest_splitting_ancestor {σ ν} (g : Gen σ ν) (s0 : σ) (split : Int) (tmpl : List Char) (root : Tree)
+    (files : List (File ν)) (hd : InDomain (effLevel split tmpl) root = true)
     (hlow : DOCUMENT_LEVEL ≤ effLevel split tmpl)
     (h : render g s0 split tmpl [root] = .ok files) (cur m u : Nat)
     (hown : (m, u) ∈ owners (effLevel split tmpl) cur root) :
@@ -137,7 +174,7 @@ theorem owner_is_nearest_splitting_ancestor {σ} (g : Gen σ) (s0 : σ) (split :
   obtain ⟨names, s', _, hlen, hp⟩ := render_partition g s0 split tmpl root files hd h
   have hd' := hd
   simp only [InDomain, Bool.and_eq_true, decide_eq_true_eq] at hd'
-  obtain ⟨⟨hroot, _⟩, hw⟩ := hd'
+  obtain ⟨⟨⟨hroot, _⟩, hw⟩, _⟩ := hd'
   have hnone : body (effLevel split tmpl) root ++ foot (effLevel split tmpl) root = [] := by
     cases root with
     | text m => simp [isDocRoot] at hroot
@@ -158,15 +195,15 @@ example : (5, 3) ∈ owners (effLevel 0 exTemplate) 0 exDoc ∧ (2, 1) ∈ owner
 
 /-- **Every piece of text appears exactly once in exactly one file**: the texts of all files together are a
     permutation of the texts of the document (nothing lost, nothing repeated) … -/
-theorem every_text_exactly_once {σ} (g : Gen σ) (s0 : σ) (split : Int) (tmpl : List Char) (root : Tree)
-    (files : List File) (hd : InDomain (effLevel split tmpl) root = true)
+theorem every_text_exactly_once {σ ν} (g : Gen σ ν) (s0 : σ) (split : Int) (tmpl : List Char) (root : Tree)
+    (files : List (File ν)) (hd : InDomain (effLevel split tmpl) root = true)
     (hlow : DOCUMENT_LEVEL ≤ effLevel split tmpl)
     (h : render g s0 split tmpl [root] = .ok files) :
     List.Perm (files.flatMap fun f => textsOf f.2) (texts root) := by
   obtain ⟨names, s', _, hlen, hp⟩ := render_partition g s0 split tmpl root files hd h
   have hd' := hd
   simp only [InDomain, Bool.and_eq_true, decide_eq_true_eq] at hd'
-  obtain ⟨⟨hroot, _⟩, hw⟩ := hd'
+  obtain ⟨⟨⟨hroot, _⟩, hw⟩, _⟩ := hd'
   have h1 := hp.flatMap_right (fun e => e.2.2)
   rw [zipWith_expected_texts names _ hlen, List.flatMap_map] at h1
   have h2 := conserve _ root hw
@@ -181,8 +218,8 @@ theorem every_text_exactly_once {σ} (g : Gen σ) (s0 : σ) (split : Int) (tmpl 
 
 /-- … so when the texts of the document are pairwise different (marker words), no marker occurs twice anywhere
     in the output, and a marker of the document occurs in some file. -/
-theorem marker_once_in_one_file {σ} (g : Gen σ) (s0 : σ) (split : Int) (tmpl : List Char) (root : Tree)
-    (files : List File) (hd : InDomain (effLevel split tmpl) root = true)
+theorem marker_once_in_one_file {σ ν} (g : Gen σ ν) (s0 : σ) (split : Int) (tmpl : List Char) (root : Tree)
+    (files : List (File ν)) (hd : InDomain (effLevel split tmpl) root = true)
     (hlow : DOCUMENT_LEVEL ≤ effLevel split tmpl)
     (h : render g s0 split tmpl [root] = .ok files) (hnd : (texts root).Nodup) :
     (files.flatMap fun f => textsOf f.2).Nodup ∧ ∀ m ∈ texts root, ∃ f ∈ files, m ∈ textsOf f.2 := by
@@ -194,24 +231,61 @@ theorem marker_once_in_one_file {σ} (g : Gen σ) (s0 : σ) (split : Int) (tmpl 
 
 example : (texts exDoc).Nodup ∧ DOCUMENT_LEVEL ≤ effLevel 0 exTemplate := by decide
 
-/-- **Output filenames are pairwise distinct and contain no forbidden character**, given the guarantee of the
-    filename generator (property C15) for the requests of this document. -/
-theorem filenames_distinct_and_clean {σ} (g : Gen σ) (s0 : σ) (split : Int) (tmpl : List Char) (root : Tree)
-    (files : List File) (bad : List Char) (hd : InDomain (effLevel split tmpl) root = true)
-    (hg : GoodGen g s0 bad)
+/-- **Output filenames are pairwise distinct**, given that the generator never issues a name twice
+    (discharged for the model of `plasTeX/Filenames.py` in `filenames_distinct_with_Filenames` below). -/
+theorem filenames_distinct {σ ν} (g : Gen σ ν) (s0 : σ) (split : Int) (tmpl : List Char) (root : Tree)
+    (files : List (File ν)) (hd : InDomain (effLevel split tmpl) root = true)
+    (hg : DistinctGen g s0)
     (h : render g s0 split tmpl [root] = .ok files) :
-    (files.map (·.1)).Nodup ∧ ∀ f ∈ files, ∀ c ∈ f.1.toList, c ∉ bad := by
+    (files.map (·.1)).Nodup := by
   obtain ⟨_, names, s', hr, hp⟩ := one_file_per_split_unit g s0 split tmpl root files hd h
-  obtain ⟨hn, hc⟩ := hg _ names s' hr
-  refine ⟨hp.nodup_iff.mpr hn, ?_⟩
+  exact hp.nodup_iff.mpr (hg _ names s' hr)
+
+/-- **Output filenames are pairwise distinct and clean** (`clean` = e.g. "contains no forbidden character",
+    `noBadChars bad`), given the guarantee of the filename generator (property C15) for the requests of this
+    document: every name a file is written under is a name the generator issued. -/
+theorem filenames_distinct_and_clean {σ ν} (g : Gen σ ν) (s0 : σ) (split : Int) (tmpl : List Char) (root : Tree)
+    (files : List (File ν)) (clean : ν → Prop) (hd : InDomain (effLevel split tmpl) root = true)
+    (hg : GoodGen g s0 clean)
+    (h : render g s0 split tmpl [root] = .ok files) :
+    (files.map (·.1)).Nodup ∧ ∀ f ∈ files, clean f.1 := by
+  obtain ⟨_, names, s', hr, hp⟩ := one_file_per_split_unit g s0 split tmpl root files hd h
+  refine ⟨hp.nodup_iff.mpr (hg.1 _ names s' hr), ?_⟩
   intro f hf
-  exact hc f.1 (hp.mem_iff.mp (List.mem_map.mpr ⟨f, hf, rfl⟩))
+  exact hg.2 _ names s' hr f.1 (hp.mem_iff.mp (List.mem_map.mpr ⟨f, hf, rfl⟩))
+
+/-- **Output filenames are pairwise distinct, new, and clean — with the real generator, no hypothesis left**:
+    the name supply is the model of `plasTeX/Filenames.py` proved correct under C15 (`filenamesGen cfg`, started
+    in *any* generator state `st`, e.g. `Filenames.initial (parseTemplate template) [jobname] reserved`).
+    Then the names the files are written under are pairwise distinct (C15 `never_duplicate_from_any_state`),
+    none of them was taken/reserved before, and — when the substitute contains no forbidden character — a
+    forbidden character in a file name is one that the extension or a template alternative spells literally,
+    never one that came from a variable value (`CleanName`; derived from the code-level model of `expand`, using
+    C15 `bad_chars_replaced`). -/
+theorem filenames_distinct_and_clean_with_Filenames (cfg : PlasVerif.Model.Filenames.Config)
+    (st : PlasVerif.Model.Filenames.State) (split : Int) (tmpl : List Char) (root : Tree)
+    (files : List (File PlasVerif.Model.Filenames.Str)) (hd : InDomain (effLevel split tmpl) root = true)
+    (h : render (filenamesGen cfg) st split tmpl [root] = .ok files) :
+    (files.map (·.1)).Nodup ∧ (∀ f ∈ files, f.1 ∉ st.taken) ∧
+    ((∀ c ∈ cfg.sub, c ∉ cfg.bad) → ∀ f ∈ files, CleanName cfg (st.statics ++ st.wildcard) f.1) := by
+  obtain ⟨_, names, s', hr, hp⟩ := one_file_per_split_unit (filenamesGen cfg) st split tmpl root files hd h
+  refine ⟨hp.nodup_iff.mpr (filenamesGen_distinct cfg st _ names s' hr), ?_, ?_⟩
+  · intro f hf
+    exact filenamesGen_not_taken cfg st s' _ names hr f.1 (hp.mem_iff.mp (List.mem_map.mpr ⟨f, hf, rfl⟩))
+  · intro hsub f hf
+    exact filenamesGen_clean cfg hsub st _ names s' hr f.1 (hp.mem_iff.mp (List.mem_map.mpr ⟨f, hf, rfl⟩))
+
+/-- a configuration and generator state for the non-vacuity example: forbidden characters `: /.`, substitute `-`,
+    extension `.html`, template `index [$id, sect$num(4)]` (as parsed) -/
+def exCfg : PlasVerif.Model.Filenames.Config := { bad := strOf ": /.", sub := strOf "-", ext := strOf ".html" }
+def exState : PlasVerif.Model.Filenames.State :=
+  PlasVerif.Model.Filenames.initial [.name (strOf "index"), .alts [strOf "${id}", strOf "sect${num.4}"]] [] []
 
 /-- **The same on every run**: `render` is a function of generator, configuration and document; moreover what
     the files hold does not depend on the names at all — two renderings of the same document under the same
     split level with *any* two generators (any states) write files with the same layouts and texts. -/
-theorem render_deterministic {σ τ} (g1 : Gen σ) (g2 : Gen τ) (s1 : σ) (s2 : τ) (split : Int) (tmpl : List Char)
-    (root : Tree) (files1 files2 : List File) (hd : InDomain (effLevel split tmpl) root = true)
+theorem render_deterministic {σ τ ν μ} (g1 : Gen σ ν) (g2 : Gen τ μ) (s1 : σ) (s2 : τ) (split : Int) (tmpl : List Char)
+    (root : Tree) (files1 : List (File ν)) (files2 : List (File μ)) (hd : InDomain (effLevel split tmpl) root = true)
     (h1 : render g1 s1 split tmpl [root] = .ok files1) (h2 : render g2 s2 split tmpl [root] = .ok files2) :
     List.Perm (files1.map fun f => (summary f).2) (files2.map fun f => (summary f).2) := by
   obtain ⟨n1, _, _, hl1, hp1⟩ := render_partition g1 s1 split tmpl root files1 hd h1
@@ -227,8 +301,8 @@ theorem render_deterministic {σ τ} (g1 : Gen σ) (g2 : Gen τ) (s1 : σ) (s2 :
     (stripped) template the effective level is −10, and when no element below the `document` element is at or
     above level −10 (plasTeX's levels start at −2) exactly one file is written and it holds every text of the
     document, body text first. -/
-theorem single_name_template_one_file {σ} (g : Gen σ) (s0 : σ) (split : Int) (tmpl : List Char) (a : Attrs)
-    (ks : List Tree) (files : List File)
+theorem single_name_template_one_file {σ ν} (g : Gen σ ν) (s0 : σ) (split : Int) (tmpl : List Char) (a : Attrs)
+    (ks : List Tree) (files : List (File ν))
     (hs : hasBlankOrBracket (strip tmpl) = false)
     (hd : InDomain (-10) (.elem a ks) = true)
     (hdeep : (unitsL (-10) ks).isEmpty = true)
@@ -241,7 +315,7 @@ theorem single_name_template_one_file {σ} (g : Gen σ) (s0 : σ) (split : Int) 
   rw [hE] at hd hlen hp
   have hd' := hd
   simp only [InDomain, Bool.and_eq_true, decide_eq_true_eq] at hd'
-  obtain ⟨⟨hroot, _⟩, hw⟩ := hd'
+  obtain ⟨⟨⟨hroot, _⟩, hw⟩, _⟩ := hd'
   have hdoc : a.level = DOCUMENT_LEVEL := by simpa [isDocRoot] using hroot
   have hU : isUnit (-10) a = true := by simp [isUnit, hdoc, DOCUMENT_LEVEL]
   have hnil : unitsL (-10) ks = [] := by simpa using hdeep
@@ -249,10 +323,8 @@ theorem single_name_template_one_file {σ} (g : Gen σ) (s0 : σ) (split : Int) 
   obtain ⟨n, rfl⟩ := List.length_eq_one_iff.mp (by simpa using hlen)
   simp only [List.zipWith_cons_cons, List.zipWith_nil_right] at hp
   obtain ⟨f, rfl, hf⟩ := List.map_eq_singleton_iff.mp (List.perm_singleton.mp hp)
-  simp only [wf_elem, Bool.false_or, Bool.and_eq_true] at hw
-  have hfoot : a.foot = false := by simpa [hU] using hw.1
+  simp only [wf_elem, Bool.and_eq_true] at hw
   have hwk := hw.2
-  rw [hfoot] at hwk
   have hc := conserveL (-10) ks hwk
   simp only [hnil, utexts_nil, List.nil_append] at hc
   have ht : textsOf f.2 = bodyL (-10) ks ++ footL (-10) ks := by
@@ -262,5 +334,121 @@ theorem single_name_template_one_file {σ} (g : Gen σ) (s0 : σ) (split : Int) 
   · rw [ht]; exact hc
 
 example : hasBlankOrBracket (strip " index ".toList) = false ∧ InDomain (-10) exDoc = true := by decide
+
+/-! ### the document node as the parser builds it: preamble nodes, `document`, whatever follows -/
+
+/-- domain for an arbitrary list of children of the document node: every child is a `document` element or
+    contains no unit (preamble commands, trailing text), plus the conditions of `InDomain` -/
+def InDomainTops (lvl : Int) (tops : List Tree) : Bool :=
+  decide (lvl < ENDSECTIONS_LEVEL) && wfL lvl tops && tops.all (fun t => isDocRoot t || (units lvl t).isEmpty) &&
+    (decide (DOCUMENT_LEVEL ≤ lvl) || footFreeL lvl false tops)
+
+/-- **`render_partition` for the whole document node**: with any children of the document node in `InDomainTops`
+    (preamble nodes and other unit-free children are walked by `cacheFilenames` but neither rendered nor named),
+    the files written are exactly one per unit of the children, named in document order, each with the body text
+    of its region followed by the region's footnote text. -/
+theorem render_partition_tops {σ ν} (g : Gen σ ν) (s0 : σ) (split : Int) (tmpl : List Char) (tops : List Tree)
+    (files : List (File ν)) (hd : InDomainTops (effLevel split tmpl) tops = true)
+    (h : render g s0 split tmpl tops = .ok files) :
+    ∃ names s', run g s0 ((unitsL (effLevel split tmpl) tops).map fun u => req u.attrs) = .ok (names, s') ∧
+      names.length = (unitsL (effLevel split tmpl) tops).length ∧
+      List.Perm (files.map summary) (List.zipWith expected names (unitsL (effLevel split tmpl) tops)) := by
+  generalize hE : effLevel split tmpl = lvl at hd ⊢
+  simp only [InDomainTops, Bool.and_eq_true, Bool.or_eq_true, decide_eq_true_eq, List.all_eq_true] at hd
+  obtain ⟨⟨⟨hl, hw⟩, hall⟩, hcorner⟩ := hd
+  have hdn : filenameOf g lvl s0 documentNode = .ok (none, s0) := by
+    have hgt : (1001 : Int) > lvl := by simp only [ENDSECTIONS_LEVEL] at hl; omega
+    simp [filenameOf, documentNode, hgt]
+  simp only [render, hE, hdn] at h
+  cases ha : assignL g lvl s0 tops with
+  | error e => simp [ha] at h
+  | ok p =>
+    obtain ⟨atops, s'⟩ := p
+    simp only [ha, Except.ok.injEq] at h
+    obtain ⟨he, han, hr⟩ := assignL_spec g lvl _ s0 s' atops ha
+    have hw' : wfL lvl (eraseL atops) = true := by simp [he, hw]
+    obtain ⟨_, _, i4, i5⟩ := mainL lvl hl atops han hw'
+    have hall' : ∀ t ∈ atops, isDocRoot (erase t) = true ∨ units lvl (erase t) = [] := by
+      intro t ht
+      have hmem : erase t ∈ tops := by rw [← he]; exact mem_eraseL t atops ht
+      have := hall _ hmem
+      simpa only [Bool.or_eq_true, List.isEmpty_iff] using this
+    obtain ⟨k1, k2⟩ := tops_render lvl hl atops han hw' hall' (by rw [he]; exact hcorner)
+    rw [k2] at h
+    rw [k1, List.append_nil] at i5
+    subst h
+    rw [he] at i4 i5
+    simp only [unitReqsL] at hr
+    exact ⟨fileNamesL atops, s', hr, i4, i5⟩
+
+/-- non-vacuity: preamble command, the example document, trailing text -/
+example : InDomainTops (effLevel 0 exTemplate)
+    [.elem { tag := 90, level := 1001, foot := false, id := none, title := none, ref := none, name := "documentclass" } [],
+     exDocNested, .text 99] = true := by decide
+
+/-! ### the failure path -/
+
+/-- **Rendering fails exactly when a name request fails, with the generator's exception**: for every document
+    (any children of the document node, inside or outside `InDomain`), split level and template, `render` and
+    the generator run over the rendering's requests (`allReqs`: the document node's own request at split levels
+    ≥ 1001, then one request per element at or above the effective split level, in document order) either both
+    succeed or both raise the same exception.  This characterises the hypothesis `render … = .ok files` of the
+    other theorems. -/
+theorem render_fails_only_with_generator {σ ν} (g : Gen σ ν) (s0 : σ) (split : Int) (tmpl : List Char) (tops : List Tree) :
+    (render g s0 split tmpl tops).map (fun _ => ()) =
+      (run g s0 (allReqs (effLevel split tmpl) tops)).map (fun _ => ()) :=
+  render_run g s0 split tmpl tops
+
+/-- rendering succeeds iff every name request is answered -/
+theorem render_succeeds_iff {σ ν} (g : Gen σ ν) (s0 : σ) (split : Int) (tmpl : List Char) (tops : List Tree) :
+    (∃ files, render g s0 split tmpl tops = .ok files) ↔
+      ∃ names s', run g s0 (allReqs (effLevel split tmpl) tops) = .ok (names, s') := by
+  have h := render_run g s0 split tmpl tops
+  constructor
+  · rintro ⟨files, hf⟩
+    rw [hf] at h
+    cases hr : run g s0 (allReqs (effLevel split tmpl) tops) with
+    | error e => rw [hr] at h; simp [Except.map] at h
+    | ok p => exact ⟨p.1, p.2, rfl⟩
+  · rintro ⟨names, s', hr⟩
+    rw [hr] at h
+    cases hf : render g s0 split tmpl tops with
+    | error e => rw [hf] at h; simp [Except.map] at h
+    | ok files => exact ⟨files, rfl⟩
+
+/-- on failure the exception is the generator's -/
+theorem render_error_iff {σ ν} (g : Gen σ ν) (s0 : σ) (split : Int) (tmpl : List Char) (tops : List Tree) (e : Err) :
+    render g s0 split tmpl tops = .error e ↔ run g s0 (allReqs (effLevel split tmpl) tops) = .error e := by
+  have h := render_run g s0 split tmpl tops
+  constructor
+  · intro hf
+    rw [hf] at h
+    cases hr : run g s0 (allReqs (effLevel split tmpl) tops) with
+    | error e' => simp_all [Except.map]
+    | ok p => simp_all [Except.map]
+  · intro hr
+    rw [hr] at h
+    cases hf : render g s0 split tmpl tops with
+    | error e' => simp_all [Except.map]
+    | ok p => simp_all [Except.map]
+
+/-- non-vacuity: a generator that dies at its second request makes the rendering of the example document fail
+    with `ValueError`; the example supply answers both requests -/
+example : render (counterGen (some 1)) 0 0 exTemplate [exDoc] = .error .valueError ∧
+    (allReqs (effLevel 0 exTemplate) [exDoc]).length = 2 := by
+  constructor
+  · rfl
+  · decide
+
+/-- non-vacuity: with the `Filenames` model as the supply the example document renders (both requests are
+    answered: `index.html`, `sect0001.html`), and the substitute is not a forbidden character -/
+example : (∃ files, render (filenamesGen exCfg) exState 0 exTemplate [exDoc] = .ok files) ∧
+    (∀ c ∈ exCfg.sub, c ∉ exCfg.bad) := by
+  refine ⟨(render_succeeds_iff _ _ _ _ _).mpr ?_, by decide⟩
+  have h : ((PlasVerif.Spec.Split.run (filenamesGen exCfg) exState (allReqs (effLevel 0 exTemplate) [exDoc])).toOption.map (·.1)) =
+      some [strOf "index.html", strOf "sect0001.html"] := by decide
+  cases hr : PlasVerif.Spec.Split.run (filenamesGen exCfg) exState (allReqs (effLevel 0 exTemplate) [exDoc]) with
+  | ok p => exact ⟨p.1, p.2, rfl⟩
+  | error e => rw [hr] at h; simp [Except.toOption] at h
 
 end PlasVerif.Properties.C13
